@@ -590,6 +590,7 @@ type sim struct {
 	multiOrph int
 	gcb       []bool
 	seen      map[int]bool
+	stop      bool // end the history (the pool made an order-dependent choice)
 }
 
 // syncStore rebuilds what the stub store serves from the reference ledger.
@@ -947,7 +948,16 @@ func (s *sim) submit(step string, opk string, i int) bool {
 				newly = append(newly, k)
 			}
 		}
-		r.Tracef("%s %s t%d: all parents available -> pooled, call pooled %s", step, opk, i, names("t", newly))
+		// Which of several complete orphans get the last free places of the pool is the
+		// pool's (map-order dependent) choice: nothing order-dependent is traced or
+		// counted then, and the history ends after this call's checks.
+		ambiguous := pressure && room-1 > 0
+		if ambiguous {
+			r.Tracef("%s %s t%d: all parents available -> pooled; the pool limit is reached inside the call, history ends here", step, opk, i)
+			s.stop = true
+		} else {
+			r.Tracef("%s %s t%d: all parents available -> pooled, call pooled %s", step, opk, i, names("t", newly))
+		}
 		m.pooled[i] = true
 		delete(m.orphans, i)
 		for _, k := range newly {
@@ -960,10 +970,12 @@ func (s *sim) submit(step string, opk string, i int) bool {
 			}
 			m.pooled[k] = true
 			delete(m.orphans, k)
-			s.promos++
-			r.Count("probe.promotion", 1)
+			if !ambiguous {
+				s.promos++
+				r.Count("probe.promotion", 1)
+			}
 		}
-		if len(newly) >= 3 {
+		if len(newly) >= 3 && !ambiguous {
 			r.Count("probe.cascade", 1)
 		}
 		for _, k := range newly {
@@ -973,6 +985,7 @@ func (s *sim) submit(step string, opk string, i int) bool {
 			}
 		}
 		if pressure {
+			opk += ".at-pool-limit" // (keeps findings at the limit apart from ordinary ones in the signature)
 			r.Count("fault.pool_full", 1)
 			// Relaxation (pool limit reached inside this call): an orphan that became
 			// complete may be pooled, stay, or be dropped; nothing else may change.
@@ -1045,8 +1058,8 @@ func (s *sim) confirm(step string, i int) bool {
 		return true
 	}
 	ok := !m.confirmed[i] && visit(i)
+	before := m.availMap()
 	if ok {
-		before := m.availMap()
 		done := 0
 		for _, k := range block {
 			valid := true
@@ -1082,6 +1095,9 @@ func (s *sim) confirm(step string, i int) bool {
 			return false
 		}
 	}
+	// an output that was available through the pool before the block and was spent
+	// inside the block is gone only now that its transaction left the pool
+	m.taintLost(before, s.r)
 	return true
 }
 
@@ -1284,6 +1300,10 @@ func runC22(p *C22Plan, r *simkit.Run) {
 		if !ok || r.Failed() {
 			return
 		}
+		if s.stop {
+			r.Count("probe.ended_at_pool_limit", 1)
+			break
+		}
 	}
 	if (s.promos > 0 || s.multiOrph > 0) && len(s.kinds) >= 3 {
 		r.NonTrivial()
@@ -1320,6 +1340,6 @@ func SpecC22() simkit.Spec {
 		FaultKinds: []string{"fault.pool_full", "fault.orphan_full", "fault.clock_jump_over_ttl", "fault.block_disconnected", "fault.store_output_spent"},
 		Probes: []string{"probe.orphan_created", "probe.multi_parent_orphan", "probe.promotion", "probe.cascade", "probe.orphan_expired",
 			"probe.orphan_resubmitted", "probe.dust_ignored", "probe.remove_unconfirmed_parent_of_orphan", "probe.block_connected",
-			"probe.store_output_gained", "probe.orphan_input_lost_by_store"},
+			"probe.store_output_gained", "probe.orphan_input_lost_by_store", "probe.ended_at_pool_limit"},
 	}
 }
